@@ -9,3 +9,5 @@ import JugModel.Props.WorkerBridge
 #print axioms Jug.C13.recovery_no_rerun
 #print axioms Jug.C13.recovered_task_can_be_locked
 #print axioms Jug.WorkerBridge.worker_conforms
+#print axioms Jug.C13.recovery_completes
+#print axioms Jug.C13.recovery_state_ok
